@@ -284,8 +284,10 @@ Proof.
       * intros [Hh Hne]. split; auto. intros ->. apply (hsig_at _ _ _ _ _ _ Es) in Hh.
         destruct Hh as (_ & _ & Hr). apply Honly in Hr. auto.
     + intros x Hx. apply in_app_iff in Hx. destruct Hx as [Hx|Hx]; auto.
-      right. eapply sub_meta_event_not_cause; eauto.
-  - intros H; inversion H; subst b' pg' o'; clear H. split; auto.
+      right. apply in_app_iff in Hx. destruct Hx as [Hx|Hx]; eapply sub_meta_event_not_cause; eauto.
+  - intros H; inversion H; subst b' pg' o'; clear H. split.
+    2:{ intros x Hx. apply in_app_iff in Hx. destruct Hx as [Hx|Hx]; auto.
+        right. eapply sub_meta_event_not_cause; eauto. }
     intros r id' t k. autorewrite with bproj.
     rewrite hsig_nset. cbn [sub_subs s' sub_topic]. change (kind s') with (kind s). rewrite In_nremove.
     split.
